@@ -1,8 +1,9 @@
 """Function table of the C07 check (a REAL module file: fn_to_sympy reads the source).
 
-ids 0..10 are harness/fnlib.py's polynomial functions (same ids), 11..15 conditionals and a
-division by a constant, 16.. functions that fn_to_sympy refuses (before and after the proposed C06
-repairs).  coq/codegen/CgInst.v (fsemQ / translatesQ) mirrors this table: keep ids stable.
+ids 0..10 are harness/fnlib.py's polynomial functions (same ids), 11..15 conditionals in return
+position and a division by a constant, 16..18 functions that fn_to_sympy refuses (before and after
+the proposed C06 repairs), 19..27 functions with LOCAL ASSIGNMENTS whose names are reassigned
+inside a branch and read after it (TRANSLATABLE is an explicit set: ids stay stable).  coq/codegen/CgInst.v (fsemQ / translatesQ) mirrors this table: keep ids stable.
 Every function is exact on small dyadic rationals in binary64."""
 
 from __future__ import annotations
@@ -60,26 +61,118 @@ def u_boolop(a, b):
 def u_lambda(a):
     return (lambda z: z)(a)
 
+# ---- local assignments and branch-local reassignment (ids 19..27, translatable) -------------
+# fn_to_sympy translates an `if` by translating [branch body + the statements after the if] once
+# per path, each path on its OWN copy of the symbol table; these functions read, after a branch,
+# a name that only one path reassigns -- the if-body, the else-body, or the statements after the if
+# (float literals: no integer literal reaches Rust)
+
+
+def h_cap(a, cap):
+    r = a * 2.0
+    if r > cap:
+        r = cap
+    return r
+
+
+def h_default(a, b):
+    f = 1.0
+    if a > b:
+        f = b
+    return a * f
+
+
+def h_nested(a, b, c):
+    r = a
+    if a > b:
+        if a > c:
+            r = c
+        r = r + b
+    return r
+
+
+def h_swap(a, b):
+    lo, hi = a, b
+    if lo > hi:
+        lo, hi = hi, lo
+    return hi - lo * 2.0
+
+
+def h_elif(a, b):
+    r = b
+    if a > 1.0:
+        r = a + b
+    elif a < -1.0:
+        s = a * b
+        r = s - b
+    elif a < 0.0:
+        pass
+    return r * 2.0
+
+
+def h_step(a):
+    r = a
+    if a > 1.0:
+        r = 1.0
+    if a < -1.0:
+        r = -1.0
+    return r - a * 0.5
+
+
+def h_else_reads(a, b, c):
+    r = a + b
+    if r > c:
+        r = c
+        s = r
+    else:
+        s = r * 2.0
+    return s - a
+
+
+def h_else_assigns(a, b):
+    r = a
+    if a > b:
+        s = r
+    else:
+        r = b
+        s = r + a
+    return s + r * 2.0
+
+
+def h_after(a, b):
+    r = a
+    s = b
+    if a > b:
+        s = r * 2.0
+    r = r + s
+    return r
+
 
 FNS = [
     f_id, f_neg, f_add, f_sub, f_mul, f_lin, f_sq, f_poly2, f_two, f_ma2, f_sum3,
     g_max2, g_abs, g_relu, g_half, g_clamp,
     u_subscript, u_boolop, u_lambda,
+    h_cap, h_default, h_nested, h_swap, h_elif, h_step, h_else_reads, h_else_assigns, h_after,
 ]  # fmt: skip
-ARITY = [1, 1, 2, 2, 2, 3, 1, 2, 0, 3, 3, 2, 1, 2, 1, 3, 1, 2, 1]
-N_TRANSLATABLE = 16
-CONDITIONAL = {11, 12, 13, 15}
+ARITY = [1, 1, 2, 2, 2, 3, 1, 2, 0, 3, 3, 2, 1, 2, 1, 3, 1, 2, 1, 2, 2, 3, 2, 2, 1, 3, 2, 2]
+# ids are positions in FNS and never change; new functions are appended
+TRANSLATABLE = frozenset(range(16)) | frozenset(range(19, 28))
+CONDITIONAL = {11, 12, 13, 15, 19, 20, 21, 22, 23, 24, 25, 26, 27}
+LOCAL_ASSIGNMENT = {19, 20, 21, 22, 23, 24, 25, 26, 27}
 BY_ARITY: dict[int, list[int]] = {}
 for _i, _a in enumerate(ARITY):
-    if _i < N_TRANSLATABLE:
+    if _i in TRANSLATABLE:
         BY_ARITY.setdefault(_a, []).append(_i)
 UNTRANSLATABLE_BY_ARITY = {1: [16, 18], 2: [17]}
 
 
 def translates(fid: int) -> bool:
-    return fid < N_TRANSLATABLE
+    return fid in TRANSLATABLE
 
 
 def fsem(fid: int, args: list):
-    """Reference meaning over exact Fractions."""
-    return FNS[fid](*args)
+    """Reference meaning over exact Fractions (float literals in a function may turn the result
+    into a float; the inputs are small dyadic rationals, so that float is exact)."""
+    from fractions import Fraction
+
+    return Fraction(FNS[fid](*args))
